@@ -14,7 +14,7 @@ pub const RULE: &str = "generated epochs with calendar year 0001-9999 in nine sc
 
 pub const ASSUMPTIONS: &[&str] = &[
     "an offset shifts the instant by exactly hh:mm in the count of the named scale (UTC if none)",
-    "numeric forms: SEC x S is x seconds after S's reference; MJD x / JD x in TAI and UTC are (x - 15020) / (x - 2415020.5) days after 1900-01-01 of that scale; tolerance 2 ulp(max(|x|, |c|)) in the unit plus 1 ns",
+    "numeric forms: SEC x S is x seconds after S's reference; MJD x / JD x in TAI and UTC are (x - 15020) / (x - 2415020.5) days after 1900-01-01 of that scale; tolerance 2 ulp(max(|x|, |c|, |x - c|)) in the unit plus 2 ulp of the nanosecond product plus 2 ns; values denoting instants outside years 0001-9999 (with margin) are skipped",
     "JD/MJD in the GNSS scales and TT, JD in ET/TDB: not asserted (any error is accepted; what 'MJD x GST' denotes is not documented)",
 ];
 
@@ -68,6 +68,20 @@ pub fn rt_oracle(c: &Rt) -> Verdict {
             match lib!(serde_json::from_str::<Epoch>(&j)) {
                 Ok(p) => ensure!(same(&p, &e), "serde round trip of {:?} gives {} count {}", j, SCALE_NAMES[scale_index(p.time_scale)], count(p.duration)),
                 Err(err) => return Verdict::Fail(format!("JSON {:?} does not deserialize: {}", j, err)),
+            }
+            // the other deserialization routes: an owned value, a reader, an escaped spelling
+            match lib!(serde_json::from_value::<Epoch>(serde_json::Value::String(texts[0].1.clone()))) {
+                Ok(p) => ensure!(same(&p, &e), "from_value round trip of {:?} differs", j),
+                Err(err) => return Verdict::Fail(format!("JSON value {:?} does not deserialize: {}", texts[0].1, err)),
+            }
+            match lib!(serde_json::from_reader::<_, Epoch>(j.as_bytes())) {
+                Ok(p) => ensure!(same(&p, &e), "from_reader round trip of {:?} differs", j),
+                Err(err) => return Verdict::Fail(format!("JSON {:?} does not deserialize from a reader: {}", j, err)),
+            }
+            let escaped = j.replace('T', "\\u0054");
+            match lib!(serde_json::from_str::<Epoch>(&escaped)) {
+                Ok(p) => ensure!(same(&p, &e), "escaped JSON {:?} differs", escaped),
+                Err(err) => return Verdict::Fail(format!("escaped JSON {:?} does not deserialize: {}", escaped, err)),
             }
         }
         Err(err) => return Verdict::Fail(format!("serialization fails: {err}")),
@@ -225,7 +239,14 @@ pub fn num_oracle(c: &Num) -> Verdict {
             // c * unit is an integer
             let c_ns: i128 = match c.form { 0 => 2_415_020 * NS_D + NS_D / 2, 1 => 15_020 * NS_D, _ => 0 };
             let exact_ns = (mul_f64_trunc(unit_ns, x).unwrap() - c_ns) as f64;
-            let tol = 2.0 * ulp(x.abs().max(cst)) * unit_ns as f64 + 2.0;
+            // outside the statement's span (calendar years 0001-9999, with margin): not asserted
+            if exact_ns.abs() > 12_000.0 * 366.0 * NS_D as f64 {
+                return Verdict::Skip("numeric value outside the span of years 0001-9999");
+            }
+            // resolution of a float of that magnitude: of x, of the constant, of their difference (which can be
+            // the largest of the three for negative x), and of the nanosecond product itself
+            let diff_mag = exact_ns.abs() / unit_ns as f64;
+            let tol = 2.0 * ulp(x.abs().max(cst).max(diff_mag)) * unit_ns as f64 + 2.0 * ulp(exact_ns.abs().max(1.0)) + 2.0;
             let got = count(e.duration) as f64;
             ensure!((got - exact_ns).abs() <= tol, "{:?}: count {} is {} ns away from the value denoted ({}), tolerance {}", txt, count(e.duration), got - exact_ns, exact_ns, tol);
             Verdict::Pass(["JD", "MJD", "SEC"][c.form as usize], true)
